@@ -22,7 +22,7 @@ Spec == Init /\ [][Next]_vars
 Programs ==
   IF t # Nil THEN {Ctx(c, t) : c \in Contexts}
   ELSE IF Len(ss) = 0 THEN {}
-  ELSE {Prog(ss), Prog(<<Node("fdecl", "", <<Id("h"), PList(<<>>), Blk(ss)>>)>>)}
+  ELSE (IF TopOK(ss) THEN {Prog(ss)} ELSE {}) \cup {Prog(<<Node("fdecl", "", <<Id("h"), PList(<<>>), Blk(ss)>>)>>)}
 
 Slim(toks) == [j \in 1..Len(toks) |-> [ty |-> toks[j].ty, lit |-> toks[j].lit, nl |-> toks[j].nl]]
 
@@ -43,14 +43,8 @@ OneB(kind, f, sep, brk) ==
 
 One(kind, f, sep) == OneB(kind, f, sep, {})
 
-\* `return` outside a function is not JavaScript: such statement lists are used as function bodies only
-RECURSIVE HasReturn(_)
-HasReturn(s) ==
-  \/ s.k = "ret"
-  \/ s.k \in {"if", "while", "for", "blk"} /\ \E j \in 1..Len(s.c) : ~IsNilNode(s.c[j]) /\ IsStmtKind(s.c[j].k) /\ HasReturn(s.c[j])
-
 Inv == \A p \in Programs :
-         (StmtStartsOK(p, <<>>) /\ \A j \in 1..Len(p.c) : ~HasReturn(p.c[j])) =>
+         StmtStartsOK(p, <<>>) =>
            LET ts == RenderProg(p, FALSE, <<>>)
                fs == Faults(ts)
            IN \A sep \in {1, 2} :
